@@ -182,7 +182,9 @@ class CursorAnalysis:
             if pp and pp[1] == 0:
                 if c is None:
                     self.moved(st, pp[0], 0)
-                    if n["op"] == "+=":
+                    rt_ = q.no_casts(f.r(n["c"][1]))
+                    to_end = n["op"] == "+=" and re.match(r"^(String::length|strlen)\(%s\)$" % re.escape(pp[0]), rt_) is not None
+                    if n["op"] == "+=" and not to_end:       # `p += String::length(p)` stops exactly at the terminator, like `p = p + length(p)`
                         self.viol.append((e, pp[0], None, self.K(st, pp[0]), "advance by a non-constant amount"))
                 elif n["op"] == "+=":
                     self.need(st, pp[0], c, e, "advance by %d" % c)
